@@ -158,7 +158,7 @@ def gen_adds(args):
       # start within a second before a whole minute (by frame count at the exact rate), step of up to two seconds: the
       # additions that cross a minute label, with and without dropped labels
       minute = rng.randrange(1, 24 * 60) * 60
-      n0 = max(0, minute * num // den - rng.randrange(0, fpsn + 3))
+      n0 = max(0, minute * num // den + 5 - rng.randrange(0, fpsn + 8))
       d = rng.randrange(0, 2 * fpsn + 2)
     tc = SmpteTimeCode.from_frames(n0, rate)
     tc.add_frames(d)
@@ -167,6 +167,16 @@ def gen_adds(args):
       out.append({"kind": "bad", "n0": n0, "what": "add_frames_n"})
     else:
       out.append({"kind": "add", "n0": n0, "d": d, "res": p})
+  # every (start in the last second before a minute, step of up to two seconds) pair, for three minutes: one whose successor
+  # is a multiple of ten (no labels dropped) and two whose successor is not
+  for minute in (10 * rng.randrange(1, 140), 10 * rng.randrange(0, 140) + rng.randrange(1, 10), 10 * rng.randrange(0, 140) + rng.randrange(1, 10)):
+    first = SmpteTimeCode.parse("%02d:%02d:59%s00" % (minute // 60 % 24, minute % 60, ";" if SmpteTimeCode.from_frames(0, rate).is_drop_frame() else ":"), rate).to_frames()
+    for off in range(0, fpsn):
+      for d in range(0, 2 * fpsn + 1):
+        tc = SmpteTimeCode.from_frames(first + off, rate)
+        tc.add_frames(d)
+        p = _pack(_fields(tc))
+        out.append({"kind": "add", "n0": first + off, "d": d, "res": p} if p is not None else {"kind": "bad", "n0": first + off, "what": "add_frames_n"})
   return out
 
 
@@ -368,7 +378,7 @@ def run(ctx):
       jobs.append((name, (num, den, a, l)))
   with Pool(16) as pool:
     chunk_out = pool.map(gen_chunk, [j[1] for j in jobs], chunksize=1)
-    add_out = pool.map(gen_adds, [(num, den, ctx.seed * 1000 + i, 400 if not thorough else 4000,
+    add_out = pool.map(gen_adds, [(num, den, ctx.seed * 1000 + i, 1200 if not thorough else 6000,
                                    24 * 3600 * fps - drop * (24 * 60 - 24 * 6))
                                   for i, (name, num, den, fps, drop) in enumerate(RATES)])
   per_rate = {r[0]: [] for r in RATES}
